@@ -6,12 +6,14 @@ import (
 	"math/rand"
 	"sort"
 	"strings"
+	"sync"
 	"sync/atomic"
 	"time"
 
 	"verif/internal/gen/puppet"
 	"verif/internal/h"
 
+	"github.com/anishathalye/porcupine"
 	"github.com/relab/gorums"
 )
 
@@ -86,6 +88,141 @@ func RunConfigs(e *Env) {
 		runLiveOverlap(e)
 	}
 	runConcurrentCreation(e)
+	runLinearizable(e)
+}
+
+// linModel is the sequential model of the manager's node pool for porcupine. The pool is a set of ids, i.e. a product of
+// independent per-id booleans: creating a configuration adds each of its ids at some instant within the call (the property does
+// not require the creation to be atomic as a whole), reading the pool (NodeIDs) reports for each id whether it is in the pool.
+// The history is therefore partitioned by id (P-compositionality): per id, add -> true; read must return the current value.
+type linIn struct {
+	Create bool
+	ID     uint32
+}
+
+var linModel = porcupine.Model{
+	Partition: func(history []porcupine.Operation) [][]porcupine.Operation {
+		by := map[uint32][]porcupine.Operation{}
+		for _, o := range history {
+			id := o.Input.(linIn).ID
+			by[id] = append(by[id], o)
+		}
+		var out [][]porcupine.Operation
+		for _, ops := range by {
+			out = append(out, ops)
+		}
+		return out
+	},
+	Init: func() any { return false },
+	Step: func(state, in, out any) (bool, any) {
+		if in.(linIn).Create {
+			return true, true
+		}
+		return out.(bool) == state.(bool), state
+	},
+	DescribeOperation: func(in, out any) string {
+		i := in.(linIn)
+		if i.Create {
+			return fmt.Sprintf("add(%d)", i.ID)
+		}
+		return fmt.Sprintf("contains(%d) -> %v", i.ID, out)
+	},
+}
+
+// runLinearizable: concurrent creation of configurations and reads of the manager's pool, recorded at the API boundary
+// (call and return stamps from one monotonic clock) and checked for linearizability against the set model with porcupine.
+func runLinearizable(e *Env) {
+	R := e.R
+	rng := e.Rand(143)
+	rounds := e.Pick(300, 20000)
+	if e.Of > 1 {
+		rounds /= e.Of
+	}
+	t0 := time.Now()
+	illegal, unknown := 0, 0
+	for it := 0; it < rounds && R.NumViolations() < 8; it++ {
+		mgr := puppet.NewManager(gorums.WithNoConnect())
+		qs := &h.QSpec{}
+		base := 9300 + rng.Intn(40)
+		const G = 6
+		var mu sync.Mutex
+		var ops []porcupine.Operation
+		lists := make([][]string, G)
+		for g := 0; g < G; g++ {
+			for k := 0; k < 1+rng.Intn(2); k++ {
+				lists[g] = append(lists[g], fmt.Sprintf("127.0.0.1:%d", base+rng.Intn(4)))
+			}
+		}
+		var start atomic.Bool
+		var wg sync.WaitGroup
+		for g := 0; g < G; g++ {
+			wg.Add(1)
+			go func(g int) {
+				defer wg.Done()
+				for !start.Load() {
+				}
+				universe := []uint32{fnvID(fmt.Sprintf("127.0.0.1:%d", base)), fnvID(fmt.Sprintf("127.0.0.1:%d", base+1)), fnvID(fmt.Sprintf("127.0.0.1:%d", base+2)), fnvID(fmt.Sprintf("127.0.0.1:%d", base+3))}
+				read := func() {
+					c := time.Since(t0).Nanoseconds()
+					ids := mgr.NodeIDs()
+					r := time.Since(t0).Nanoseconds()
+					in := map[uint32]bool{}
+					for _, id := range ids {
+						in[id] = true
+					}
+					mu.Lock()
+					for _, id := range universe {
+						ops = append(ops, porcupine.Operation{ClientId: g, Input: linIn{ID: id}, Call: c, Output: in[id], Return: r})
+					}
+					mu.Unlock()
+				}
+				want := map[uint32]bool{}
+				for _, a := range lists[g] {
+					want[fnvID(a)] = true
+				}
+				if g%3 == 2 {
+					read()
+				}
+				c := time.Since(t0).Nanoseconds()
+				_, err := mgr.NewConfiguration(gorums.WithNodeList(lists[g]), qs)
+				r := time.Since(t0).Nanoseconds()
+				if err == nil {
+					mu.Lock()
+					for id := range want {
+						ops = append(ops, porcupine.Operation{ClientId: g, Input: linIn{Create: true, ID: id}, Call: c, Output: true, Return: r})
+					}
+					mu.Unlock()
+				}
+				read()
+			}(g)
+		}
+		start.Store(true)
+		wg.Wait()
+		res, info := porcupine.CheckOperationsVerbose(linModel, ops, 20*time.Second)
+		switch res {
+		case porcupine.Illegal:
+			illegal++
+			var desc []string
+			for _, o := range ops {
+				desc = append(desc, fmt.Sprintf("client %d [%d,%d] %s", o.ClientId, o.Call, o.Return, linModel.DescribeOperation(o.Input, o.Output)))
+			}
+			_ = info
+			R.Violate("pool-not-linearizable", "concurrent configuration creation and NodeIDs() reads are not linearizable with respect to the per-id set model of the node pool (an id was seen and later not seen, or not seen after its creation had returned)", map[string]any{"history": desc, "lists": lists})
+		case porcupine.Unknown:
+			unknown++
+			R.Inconc("porcupine timed out")
+		}
+		R.Eval(fmt.Sprintf("lin|%v", lists), true)
+		if it == 0 {
+			var desc []string
+			for _, o := range ops {
+				desc = append(desc, fmt.Sprintf("client %d [%d,%d] %s", o.ClientId, o.Call, o.Return, linModel.DescribeOperation(o.Input, o.Output)))
+			}
+			R.Sample(map[string]any{"kind": "linearizability history (porcupine)", "operations": desc, "verdict": "linearizable"})
+		}
+	}
+	R.Count("porcupine_histories_checked", int64(rounds))
+	R.Count("porcupine_illegal", int64(illegal))
 }
 
 // runConcurrentCreation: configurations created concurrently over overlapping addresses share the manager's pooled nodes.
